@@ -263,6 +263,8 @@ func (r *Repo) TransitiveDeps(labels []string) map[string]bool {
 type OutEnt struct {
 	Rel  string
 	Node *Node
+	// Optional outputs are collected into plz-out but are not handed to dependents as sources.
+	Optional bool
 }
 
 type input struct {
@@ -329,19 +331,19 @@ func (r *Repo) Eval() (outs map[string][]OutEnt, ok map[string]bool) {
 		}
 		switch t.Kind {
 		case "text_file":
-			outs[t.Label()] = []OutEnt{{t.Outs[0], &Node{Name: t.Outs[0], Content: t.Content}}}
+			outs[t.Label()] = []OutEnt{{Rel: t.Outs[0], Node: &Node{Name: t.Outs[0], Content: t.Content}}}
 		case "filegroup":
 			var es []OutEnt
 			seen := map[string]bool{}
 			for _, f := range r.EffectiveFileSrcs(t) {
 				if rf, found := r.file(t.Pkg, f); found && !seen[f] {
 					seen[f] = true
-					es = append(es, OutEnt{f, &Node{Name: filepath.Base(f), Content: rf.Content}})
+					es = append(es, OutEnt{Rel: f, Node: &Node{Name: filepath.Base(f), Content: rf.Content}})
 				}
 			}
 			for _, d := range r.ResolvedDeps(t) {
 				for _, o := range outs[d] {
-					if !seen[o.Rel] {
+					if !seen[o.Rel] && !o.Optional {
 						seen[o.Rel] = true
 						es = append(es, o)
 					}
@@ -358,31 +360,33 @@ func (r *Repo) Eval() (outs map[string][]OutEnt, ok map[string]bool) {
 			for _, d := range r.SrcDeps(t) { // tools are not in $SRCS
 				dt := r.Target(d)
 				for _, o := range outs[d] {
-					ins = append(ins, input{dt.Pkg + "/" + o.Rel, o.Node})
+					if !o.Optional {
+						ins = append(ins, input{dt.Pkg + "/" + o.Rel, o.Node})
+					}
 				}
 			}
 			d := digest(ins)
 			var es []OutEnt
 			switch t.Cmd {
 			case "defs":
-				es = []OutEnt{{t.Outs[0], &Node{Name: t.Outs[0], Content: DefsText}}}
+				es = []OutEnt{{Rel: t.Outs[0], Node: &Node{Name: t.Outs[0], Content: DefsText}}}
 			case "strip":
-				es = []OutEnt{{t.Outs[0], &Node{Name: t.Outs[0], Content: stripComments(d)}}}
+				es = []OutEnt{{Rel: t.Outs[0], Node: &Node{Name: t.Outs[0], Content: stripComments(d)}}}
 			case "count":
-				es = []OutEnt{{t.Outs[0], &Node{Name: t.Outs[0], Content: fmt.Sprintf("%d\n", len(d))}}}
+				es = []OutEnt{{Rel: t.Outs[0], Node: &Node{Name: t.Outs[0], Content: fmt.Sprintf("%d\n", len(d))}}}
 			case "multi":
 				for _, o := range t.Outs {
-					es = append(es, OutEnt{o, &Node{Name: o, Content: o + "\n" + d}})
+					es = append(es, OutEnt{Rel: o, Node: &Node{Name: o, Content: o + "\n" + d}})
 				}
 			case "dirk":
-				es = []OutEnt{{t.Outs[0], &Node{Name: t.Outs[0], Dir: true, Children: []*Node{{Name: "k" + sanitizeTail(d, 8), Content: "x"}}}}}
+				es = []OutEnt{{Rel: t.Outs[0], Node: &Node{Name: t.Outs[0], Dir: true, Children: []*Node{{Name: "k" + sanitizeTail(d, 8), Content: "x"}}}}}
 			case "dirn":
-				es = []OutEnt{{t.Outs[0], &Node{Name: t.Outs[0], Dir: true, Children: []*Node{
+				es = []OutEnt{{Rel: t.Outs[0], Node: &Node{Name: t.Outs[0], Dir: true, Children: []*Node{
 					{Name: "all", Content: d},
 					{Name: "sub", Dir: true, Children: []*Node{{Name: "k", Content: sanitizeTail(d, 8)}, {Name: "lnk", Link: true, Target: "../all"}}},
 				}}}}
 			default: // cat
-				es = []OutEnt{{t.Outs[0], &Node{Name: t.Outs[0], Content: d}}}
+				es = []OutEnt{{Rel: t.Outs[0], Node: &Node{Name: t.Outs[0], Content: d}}}
 			}
 			if t.ExecOut && len(es) == 1 && !es[0].Node.Dir {
 				es[0].Node.Exec = true
@@ -391,7 +395,7 @@ func (r *Repo) Eval() (outs map[string][]OutEnt, ok map[string]bool) {
 				es[0].Node.Children[0].Exec = true
 			}
 			if t.OptOut {
-				es = append(es, OutEnt{t.Name + ".opt", &Node{Name: t.Name + ".opt", Content: "opt " + sanitizeTail(d, 8)}})
+				es = append(es, OutEnt{Rel: t.Name + ".opt", Node: &Node{Name: t.Name + ".opt", Content: "opt " + sanitizeTail(d, 8)}, Optional: true})
 			}
 			outs[t.Label()] = es
 		}
